@@ -33,6 +33,8 @@ CHECKS = {
          "every vector of length 1..4 (quick) / 1..6 (thorough) in the metric's domain; equality of the formulas over the reals", "4 C06"),
  "C08": ("symbolic execution (z3 NRA) of the metric bodies for each axiom claimed in the fixed axiom table; sum-type metrics decided on their coordinate kernel with the decomposition checked against the code; floating-point robustness by the standard rounding model with replay of every candidate on the real njit code",
          "lengths 1..3 (quick) / 1..4 (thorough), kernels lifted up to 4/8; triangle n<=2/3; undecided queries are listed, never counted", "4 C08"),
+ "C07": ("symbolic execution (z3) of all 47 metrics and of fit/predict of the four models on caller-owned symbolic arrays with a write log in the numpy model; QF_FP (Float64) query decides whether a logged write can change the stored value; candidates replayed on the real package (bytes before/after)",
+         "metrics: vectors of length 1..2 (quick) / 1..3 (thorough); models: 3 training samples + 1 query, one feature, decorated and undecorated metric", "4 C07"),
 }
 
 def main():
